@@ -6,8 +6,9 @@
   `dateutil.rrule(freq, interval = k, dtstart, until)` is *modelled* as "start at `dtstart`, add `k` units while
   `≤ until`" (assumption, sampled by the correspondence check); for month-based frequencies only for a day of
   month ≤ 28 (rrule skips impossible dates, which the property excludes), keeping the time of day.
-  `dt_bump` for period strings (src/pyg_base/_dates.py:388-418) is modelled locally (`bump1`), independent of the
-  C09 model; month arithmetic comes from `Civil`.  Core Lean only.
+  `dt_bump` for period strings (src/pyg_base/_dates.py:388-418) is written out here as total integer functions
+  (`bump1`, month arithmetic from `Civil`); PygProofs/Lemmas/DRangeBump.lean proves it equal to the C09 model
+  `Pyg.Bump` (generated kernels + `Pyg.Greg`) wherever that model returns a value.  Core Lean only.
 -/
 import PygModel.Basic
 import PygModel.Civil
@@ -101,12 +102,36 @@ def stride {α} (k : Nat) (l : List α) : List α := strideGo k l 0
 /-- `(t1 - t0).days`: timedelta days are a floor division -/
 def tdDays (x : Int) : Int := x / DAY
 
-/-- the iteration branches (timedelta, _drange.py:151-168; compound period, 186-203) -/
+/-- the timedelta branch (_drange.py:151-168): the direction is tested once, at `t0` (a constant step cannot turn) -/
 def loopBranch (step : Int → Int) (t0 t1 : Int) : Res (List Int) :=
   if t1 > t0 then
     if step t0 ≤ t0 then .error .value else .ok (upTo step t0 t1)
   else if t1 < t0 then
     if step t0 ≥ t0 then .error .value else .ok (downTo step t0 t1)
+  else .ok [t0]
+
+/-- the repaired `dt_bump` loops (F15, _drange.py:196-213): `while t <= t1: res.append(t); t' = dt_bump(t); if t' <= t:
+raise ValueError; t = t'` — every step must move strictly towards `t1` (a mixed-sign tenor such as `'1m-30d'` passes
+the direction test at `t0` and then cycles).  The fuel `(t1 - t0) + 1` is never exhausted: a step that does not
+raise advances by at least one microsecond. -/
+def iterUpC (step : Int → Int) (t1 : Int) : Nat → Int → Res (List Int)
+  | 0, _ => .ok []
+  | k + 1, t =>
+    if t ≤ t1 then
+      if step t ≤ t then .error .value else (iterUpC step t1 k (step t)).bind fun l => .ok (t :: l)
+    else .ok []
+
+def iterDownC (step : Int → Int) (t1 : Int) : Nat → Int → Res (List Int)
+  | 0, _ => .ok []
+  | k + 1, t =>
+    if t ≥ t1 then
+      if step t ≥ t then .error .value else (iterDownC step t1 k (step t)).bind fun l => .ok (t :: l)
+    else .ok []
+
+/-- the compound-period / non-positive single period branch (_drange.py:194-213) with the per-step check -/
+def loopBranchC (step : Int → Int) (t0 t1 : Int) : Res (List Int) :=
+  if t1 > t0 then iterUpC step t1 ((t1 - t0).toNat + 1) t0
+  else if t1 < t0 then iterDownC step t1 ((t0 - t1).toNat + 1) t0
   else .ok [t0]
 
 /-- `res[::-1] if k < 0`, then `res[::abs(k)] if abs(k) > 1` (_drange.py:147-148, 180-181) -/
@@ -127,7 +152,8 @@ def drangeInt (t0 t1 n : Int) : Res (List Int) :=
   else .ok (orient n (daily (min t0 t1) (max t0 t1)))
 
 /-- `drange(t0, t1, bump)` with the repair of F3: a single period with a non-positive count (which rrule cannot
-enumerate) is iterated with `dt_bump` like a compound one (_drange.py:172) -/
+enumerate) is iterated with `dt_bump` like a compound one (_drange.py:172), and of F15: the `dt_bump` loops raise
+ValueError as soon as a step fails to move strictly towards `t1` (`loopBranchC`) -/
 def drange (t0 t1 : Int) (b : Bump) : Res (List Int) :=
   if t0 = t1 then .ok [t0] else
   match b with
@@ -141,8 +167,8 @@ def drange (t0 t1 : Int) (b : Bump) : Res (List Int) :=
         else if u = .b then
           .ok (orient interval ((daily (min t0 t1) (max t0 t1)).filter fun t => wdT t < 5))
         else .ok (upTo (rruleStep n u) t0 t1)
-      else loopBranch (dtBump [(n, u)]) t0 t1
-  | .period parts => loopBranch (dtBump parts) t0 t1
+      else loopBranchC (dtBump [(n, u)]) t0 t1
+  | .period parts => loopBranchC (dtBump parts) t0 t1
 
 /-! ### the `period` tokenizer: `^[-+]{0,1}[0-9]+[dbwmqyhnsDBWMQYHNS]{1}` repeatedly, after `.lower()` -/
 
